@@ -280,6 +280,14 @@ def c08_population(seed, n):
             else:
                 u.append(rb.pop(0))
         ab = {"rows": u, "init": dict(list(a["init"].items()) + list(b["init"].items())), "features": []}
+        if len(u) >= 4 and rng.random() < 0.35:
+            # the rows arrive in several files; each part alone gets its own rows of each file, in the same files
+            cuts = sorted(rng.sample(range(1, len(u)), rng.choice([1, 1, 2])))
+            chunks = [u[i:j] for i, j in zip([0] + cuts, cuts + [len(u)])]
+            ida, idb = {id(r) for r in a["rows"]}, {id(r) for r in b["rows"]}
+            ab["chunks"] = chunks
+            a = dict(a, chunks=[[r for r in ch if id(r) in ida] for ch in chunks])
+            b = dict(b, chunks=[[r for r in ch if id(r) in idb] for ch in chunks])
         pop.append((common.case_id(seed, "C08", i), "pair #%d" % i, a, b, ab))
     return pop
 
@@ -360,7 +368,7 @@ def run_c08(tier):
     common.build()
     V = Verdict("C08", tier)
     V.rule = ("pairs (A, B) of generated inputs over disjoint security sets sharing affiliates and a date range, B with deliberately impossible rows at "
-              "rate 0-30%, plus a random interleaving A+B; A, B and A+B are run in different harness processes; non-trivial = B contains a bookkeeping "
+              "rate 0-30%, plus a random interleaving A+B (in a third of the pairs given as 2-3 files, each part alone keeping its rows of each file); A, B and A+B are run in different harness processes; non-trivial = B contains a bookkeeping "
               "failure, or A and B share an affiliate and a settlement date")
     n = {"quick": 1500, "thorough": 60000}[tier]
     pop = c08_population(seed, n)
